@@ -153,12 +153,14 @@ def _compile_letter(spec, letter):
 
     key, arg = spec["letters"][letter]
     try:
+        kwargs = {}
         if key.startswith("@"):
             ent = _corpus_entity(key[1:])
         else:
             mod = _load(spec, key)
             ent = mod.build(arg)
-        text = std.VhdlCompiler.to_string(ent)
+            kwargs = dict(getattr(mod, "COMPILE_KWARGS", {}))  # e.g. additional_reserved_names
+        text = std.VhdlCompiler.to_string(ent, **kwargs)
         if not isinstance(text, str):
             return {"ok": False, "text": None, "exc": "<non-str result>", "msg": repr(type(text))}
         return {"ok": True, "text": text, "exc": None, "msg": None}
